@@ -1142,3 +1142,18 @@ package logqlengine
 //@   inline
 //@ func isDigit
 //@   inline
+
+// ---- C09: the engine's look-back for instant queries
+
+//@ scope engine.go
+
+// The look-back is a negative duration: the default is 30 s, and a caller may only widen or
+// narrow it by giving a negative value (a non-negative one means "default").
+// (Stated on the value the field has when the tracer provider is looked up: that library call is
+// not modelled, so what it leaves of the heap is unknown to the verifier; it does not know the
+// options.)
+//@ func (*Options).setDefaults
+//@   capture tp = call(otel.GetTracerProvider, 0)
+//@   ensures[lookback-is-negative] ite(tp_called, before(tp_called, o.LookbackDuration), o.LookbackDuration) < 0
+//@   ensures[default-lookback-is-30s] old(o.LookbackDuration) >= 0 ==> ite(tp_called, before(tp_called, o.LookbackDuration), o.LookbackDuration) == -30*time.Second
+//@   ensures[given-lookback-is-kept] old(o.LookbackDuration) < 0 ==> ite(tp_called, before(tp_called, o.LookbackDuration), o.LookbackDuration) == old(o.LookbackDuration)
